@@ -221,9 +221,17 @@ package netceptor
 //@   safety
 //@   requires s != nil
 
-//@ func (*Netceptor).sendAndLogConnectionRejection
-//@   tags C07
+//@ func (*Netceptor).sendRejectMessage
+//@   tags C07 C11
 //@   requires s != nil && ci != nil
+//@   modifies nothing
+
+//@ func (*Netceptor).sendAndLogConnectionRejection
+//@   tags C07 C11
+//@   safety
+//@   requires s != nil && ci != nil
+//@   modifies nothing
+//@   ensures REJECTED: [C11] result != nil
 
 //@ func (*Netceptor).handleRoutingUpdate
 //@   tags C06 C07
